@@ -177,7 +177,8 @@ def WakeSys.step (s : WakeSys) (t : Tid) : WAct → Option WakeSys
     | .idle => if Gen.wakeAfterAppend then none else some { s with pipe := s.pipe + 1, ppc := upd s.ppc t .half, nhalf := s.nhalf + 1 }
     | .half => if Gen.wakeAfterAppend then some { s with pipe := s.pipe + 1, ppc := upd s.ppc t .idle, nhalf := s.nhalf - 1 } else none
   | .wantw =>
-    if t = s.loopTid ∧ s.lpc = .top ∧ s.hand.isNone then some { s with lpc := .armed (!s.queue.isEmpty) } else none
+    -- (`_loop` is entered through loop(), which creates the wake-up pipe first)
+    if t = s.loopTid ∧ s.lpc = .top ∧ s.hand.isNone ∧ s.hasPipe then some { s with lpc := .armed (!s.queue.isEmpty) } else none
   | .select sockR writable =>
     if t ≠ s.loopTid then none else
     match s.lpc with
